@@ -280,9 +280,14 @@ void h_write_to_buffer(void)
   VERIF_CANARY();
 }
 
-/* read_from_chunks: plain harness (no dfcc), real byte_buffer_consume_at_most,
- * explored path by path (--paths lifo; see contracts/endpoints.h).  Up to
- * EP_CHUNKS_MAX chunks, every one in an arbitrary well-formed state.
+/* read_from_chunks: plain harness (no dfcc), real byte_buffer_consume_at_most.
+ * Up to EP_CHUNKS_MAX chunks, every one in an arbitrary well-formed state.
+ * CBMC 6.11 reads the loop-local `rc` of the backward-goto loop stale when
+ * exits of different iterations are merged; the result is right when the
+ * feasible exit is the last unwound iteration.  Hence one target per number
+ * EP_SKIP of chunks that are skipped (exactly EP_SKIP empty chunks from
+ * `active` on, then a chunk with unread octets or the end of the list), each
+ * unwound exactly EP_SKIP + 1 times with the unwinding assertion on.
  * Obligations: chunks without unread octets are skipped and only those
  * (nothing lost); the octets come, in order, from the first chunk that has
  * some, at most n of them, and only that chunk's offset moves; -ENODATA
@@ -303,6 +308,10 @@ void h_write_to_buffer(void)
 #ifndef EP_CNMAX
 #define EP_CNMAX 16
 #endif
+#ifndef EP_SKIP
+#define EP_SKIP 0
+#endif
+#define EP_CHUNK_EMPTY(i) (chunk[(i) < EP_CHUNKS_MAX ? (i) : 0].used == chunk[(i) < EP_CHUNKS_MAX ? (i) : 0].offset)
 
 void h_read_from_chunks(void)
 {
@@ -318,8 +327,16 @@ void h_read_from_chunks(void)
   IN(size_t, in_n) EP_FOLD(in_n, 1, EP_CNMAX)
   ASSUME(in_n >= 1 && in_n <= EP_CNMAX);
   IN_MEM(in_dst, in_n)
+  /* exactly EP_SKIP chunks are skipped */
+  ASSUME(in_active + EP_SKIP <= in_chunks);
+  ASSUME(IMPLIES(EP_SKIP > 0, EP_CHUNK_EMPTY(in_active)));
+  ASSUME(IMPLIES(EP_SKIP > 1, EP_CHUNK_EMPTY(in_active + 1)));
+  ASSUME(IMPLIES(EP_SKIP > 2, EP_CHUNK_EMPTY(in_active + 2)));
+  ASSUME(IMPLIES(EP_SKIP > 3, EP_CHUNK_EMPTY(in_active + 3)));
+  ASSUME(in_active + EP_SKIP == in_chunks || !EP_CHUNK_EMPTY(in_active + EP_SKIP));
 
   const ssize_t r = read_from_chunks(&c, in_dst, in_n);
+  CHECK(c.active == in_active + EP_SKIP, "exactly the empty chunks in front are skipped");
 
   CHECK(c.chunks == in_chunks && c.chunk == chunk, "the chunk list itself is unchanged");
   CHECK(c.active >= in_active && c.active <= in_chunks, "active only moves forward, never past the list");
